@@ -19,6 +19,7 @@ C = {
  "C12": ("PciBus.tla: BAR = (writable mask, flags); guards on every configuration access of bar_info/bars (no sizing while decoding, restored for results and errors), expected result from the model; CAM/ECAM offset with left inverse (TLC) + all 2x4M offsets in the harness; enumeration and capability walking.", "PciBus.tla, PciBusMC.tla, PciBusTrace.tla"),
  "C14": ("Blk.tla: request encoding (type, reserved, sector, part shapes, data digest), completion matching by token under any completion order, status mapping, flush gating, capacity/read-only; BlkMC explores all allowed behaviours of a small instance; random histories on all transports and servicing policies validated, plus the queue-level traces.", "Blk.tla, BlkMC.tla, BlkTrace.tla, VirtQueueTrace.tla"),
  "C15": ("Console.tla: position-coded device stream, consumed count, one outstanding buffer, re-post only when consumed, every API result determined by the state; ConsoleMC model-checks the transcribed receive path with the device filling at any instant; random API mixes on all transports validated.", "Console.tla, ConsoleMC.tla, ConsoleTrace.tla, VirtQueueTrace.tla"),
+ "C16": ("Net.tla: header size by negotiated VERSION_1, tx chain = zeroed header + caller bytes, rx frame/length from the used length, buffer conservation (posted + caller-owned = queue size), readiness queries; NetMC model-checks the buffered driver; random histories on both drivers, all transports validated.", "Net.tla, NetMC.tla, NetTrace.tla, VirtQueueTrace.tla"),
  "C13": ("Config.tla + ConfigMC: read_consistent vs a device updating between any two accesses (negative config yields a torn value); bounds grid on the real MMIO transport; every placement of device updates among the accesses of each multi-field reader on model and modern-MMIO transports.", "Config.tla, ConfigMC.tla, ConfigTrace.tla, Mmio.tla"),
 }
 commits = subprocess.run(["git", "-C", "/repo", "log", "--format=%h %s"], capture_output=True, text=True).stdout.splitlines()
